@@ -71,6 +71,17 @@ func init() {
 			stk := make([]byte, 1<<18)
 			stk = stk[:runtime.Stack(stk, true)]
 			fmt.Printf("VERIF-HANG goroutines:\n%s\n", stk)
+			if why := unsimulable(string(stk)); why != "" {
+				// not the server's fault: the bubble cannot become quiescent because goroutines
+				// inside it wait on a channel that was created outside it (a package-level
+				// channel, e.g. the queue of a worker pool built in a variable initialiser).
+				// testing/synctest cannot simulate that; reported as infrastructure trouble.
+				fmt.Printf("VERIF-UNSUPPORTED: %s\n", why)
+				if fp := os.Getenv("VERIF_FAIL"); fp != "" {
+					_ = os.Remove(fp + ".pending")
+				}
+				os.Exit(4)
+			}
 			if hw != nil {
 				pl := *hw.plan
 				if hw.ev+1 <= len(pl.Events) {
@@ -88,6 +99,28 @@ func init() {
 			os.Exit(3)
 		}
 	}()
+}
+
+// unsimulable looks for goroutines of the bubble that are blocked on a channel
+// operation without being durably blocked: the channel does not belong to the bubble.
+func unsimulable(stacks string) string {
+	for _, g := range strings.Split(stacks, "\n\n") {
+		head := g
+		if i := strings.IndexByte(g, '\n'); i >= 0 {
+			head = g[:i]
+		}
+		if !strings.Contains(head, "synctest bubble") || strings.Contains(head, "(durable)") {
+			continue
+		}
+		if strings.Contains(head, "[chan receive") || strings.Contains(head, "[chan send") || strings.Contains(head, "[select") {
+			fn := ""
+			if lines := strings.Split(g, "\n"); len(lines) > 1 {
+				fn = strings.TrimSpace(lines[1])
+			}
+			return "a goroutine inside the simulation waits on a channel created outside it (" + head + " " + fn + "); testing/synctest cannot make such a bubble quiescent"
+		}
+	}
+	return ""
 }
 
 func init() {
@@ -953,6 +986,7 @@ func (w *world) writePending(ev *Event) {
 	}
 	v := verifh.Violation{Property: w.prop, Clause: "process-survives", Op: ep, Witness: "process-crash", Detail: fmt.Sprintf("the server process died while serving event %d (%s): %s", w.evIdx, ev.Kind, reqDesc(ev.Req))}
 	ff := verifh.FailFile{Property: w.prop, World: "C", Signature: v.Signature(), Violation: v, Plan: pb, Crash: true}
+	ff.Seed, ff.WorkerSeed, ff.Checks, ff.RunIndex = verifh.HistoryInfo()
 	b, _ := json.Marshal(ff)
 	_ = os.WriteFile(w.pendingPath, b, 0o644)
 }
